@@ -75,7 +75,7 @@ def detect_language(file_path: Path) -> str:
     with suppress(KeyError):
         return EXTENSION_MAP[ext]
 
-    if file_path.exists() and file_path.stat().st_size > 0:
+    if not ext and file_path.exists() and file_path.stat().st_size > 0:
         lang = _detect_from_shebang(file_path)
         if lang:
             return lang
